@@ -275,30 +275,136 @@ class SimDisk:
         self.liveness_exc = SimLiveness
         self.sched = None  # optional baton scheduler (threaded runs)
         self.real_opens = []  # attempted opens of paths that are not simulated
+        # directories: every directory exists unless it lies in/below a path declared missing (and not created since)
+        self.missing = set()  # resolved paths of directories that do not exist
+        self.made_dirs = set()  # directories created through the seams during the run
+        self.cwd_gone = False  # the working directory was removed under the process (os.getcwd raises)
+        self.fake_fds = {}  # descriptor returned by the os.open seam -> (path, flags)
+        self.versions = {}  # resolved path -> number of times it was opened for writing / replaced (stands in for mtime)
 
-    def resolve(self, path):
+    def resolve(self, path, follow_last=True):
         p = os.fspath(path)
         if isinstance(p, bytes):
             p = os.fsdecode(p)
         if not p.startswith("/"):
             p = self.cwd.rstrip("/") + "/" + p
+        comps = [c for c in p.split("/") if c not in ("", ".")]
         cur = []
-        for comp in p.split("/"):
-            if comp in ("", "."):
-                continue
+        for i, comp in enumerate(comps):
             if comp == "..":
                 if cur:
                     cur.pop()
                 continue
             cur.append(comp)
-            target = self.symlinks.get("/" + "/".join(cur))
-            if target is not None:
+            if i == len(comps) - 1 and not follow_last:
+                break  # lstat / rename / unlink semantics: the last component names the directory entry itself
+            for _hop in range(8):  # a link may point to another link
+                target = self.symlinks.get("/" + "/".join(cur))
+                if target is None:
+                    break
                 cur = [c for c in target.split("/") if c]
         return "/" + "/".join(cur)
 
-    def symlink(self, link, target_dir):
-        """Register `link` as a symbolic link to the directory `target_dir` (both resolved first)."""
-        self.symlinks[self.resolve(link)] = self.resolve(target_dir)
+    # -- directories -----------------------------------------------------------------------
+    def declare_missing(self, path):
+        """The directory `path` (and everything below it) does not exist until something creates it."""
+        self.missing.add(self.resolve(path))
+
+    def _missing_ancestor(self, rp):
+        """The outermost declared-missing directory that `rp` (resolved) lies in or equals, or None."""
+        best = None
+        for m in self.missing:
+            if rp == m or rp.startswith(m.rstrip("/") + "/"):
+                if best is None or len(m) < len(best):
+                    best = m
+        return best
+
+    def dir_exists(self, path):
+        rp = self.resolve(path)
+        if super(_PathDict, self.files).__contains__(rp):
+            return False
+        if self._missing_ancestor(rp) is not None:
+            return False
+        if rp in self.made_dirs or rp == "/" or self.cwd == rp or self.cwd.startswith(rp.rstrip("/") + "/"):
+            return True
+        pre = rp.rstrip("/") + "/"
+        return any(k.startswith(pre) for k in dict.keys(self.files)) or any(k.startswith(pre) for k in self.made_dirs)
+
+    def parent_exists(self, path):
+        rp = self.resolve(path, follow_last=False)
+        parent = rp.rsplit("/", 1)[0] or "/"
+        return self._missing_ancestor(parent) is None
+
+    def makedirs(self, path, exist_ok=False):
+        rp = self.resolve(path)
+        if super(_PathDict, self.files).__contains__(rp):
+            raise FileExistsError(17, "File exists", os.fspath(path))
+        m = self._missing_ancestor(rp)
+        if m is None:
+            if not exist_ok:
+                raise FileExistsError(17, "File exists", os.fspath(path))
+            return
+        # create m, ..., rp: everything else below m stays missing
+        self.missing.discard(m)
+        chain = [m]
+        rest = rp[len(m):].strip("/")
+        for comp in (rest.split("/") if rest else []):
+            chain.append(chain[-1].rstrip("/") + "/" + comp)
+        for d in chain:
+            self.made_dirs.add(d)
+            self.log("mkdir", d)
+        # siblings of the created chain below m do not exist: nothing to do (directories not created are simply absent
+        # because nothing lives in them); but deeper missing declarations below rp are kept
+
+    def mkdir(self, path):
+        rp = self.resolve(path)
+        parent = rp.rsplit("/", 1)[0] or "/"
+        if self._missing_ancestor(parent) is not None:
+            raise FileNotFoundError(2, "No such file or directory", os.fspath(path))
+        if self._missing_ancestor(rp) is None or super(_PathDict, self.files).__contains__(rp):
+            raise FileExistsError(17, "File exists", os.fspath(path))
+        self.missing.discard(rp)
+        self.made_dirs.add(rp)
+        self.log("mkdir", rp)
+
+    def tree(self):
+        """Canonical picture of the simulated file system (for whole-tree comparisons)."""
+        from .common import short
+
+        return {"files": {k: short(bytes(v), 16) for k, v in sorted(dict.items(self.files))},
+                "symlinks": dict(sorted(self.symlinks.items())), "dirs": sorted(self.made_dirs)}
+
+    def symlink(self, link, target):
+        """Register `link` as a symbolic link to the directory or file `target` (the target need not exist)."""
+        self.symlinks[self.resolve(link, follow_last=False)] = self.resolve(target)
+
+    def rename(self, src, dst):
+        """os.rename / os.replace: moves the directory entry `src` over the entry `dst` (a link at dst is replaced, not followed)."""
+        a, b = self.resolve(src, follow_last=False), self.resolve(dst, follow_last=False)
+        files = self.files
+        if a in self.symlinks:
+            tgt = self.symlinks.pop(a)
+            if dict.__contains__(files, b):
+                dict.__delitem__(files, b)
+            self.symlinks[b] = tgt
+        elif dict.__contains__(files, a):
+            data = dict.pop(files, a)
+            self.symlinks.pop(b, None)
+            dict.__setitem__(files, b, data)
+        else:
+            raise FileNotFoundError(2, "No such file or directory", os.fspath(src))
+        if not self.parent_exists(dst):
+            raise FileNotFoundError(2, "No such file or directory", os.fspath(dst))
+        self.versions[b] = self.versions.get(b, 0) + 1
+
+    def unlink(self, path):
+        a = self.resolve(path, follow_last=False)
+        if a in self.symlinks:
+            del self.symlinks[a]
+        elif dict.__contains__(self.files, a):
+            dict.__delitem__(self.files, a)
+        else:
+            raise FileNotFoundError(2, "No such file or directory", os.fspath(path))
 
     # -- logging ---------------------------------------------------------------------------
     def log(self, kind, path, **detail):
@@ -329,23 +435,48 @@ class SimDisk:
         return [h for h in self.handles if not h.sim_closed]
 
     # -- the seam --------------------------------------------------------------------------
-    def open(self, file, mode="r", buffering=-1, encoding=None, errors=None, newline=None, **kw):
-        path = os.fspath(file)
-        if not isinstance(path, str):
-            path = os.fsdecode(path)
+    def open(self, file, mode="r", buffering=-1, encoding=None, errors=None, newline=None, closefd=True, opener=None, **kw):
+        flags = None
+        if isinstance(file, int):
+            if file not in self.fake_fds:
+                raise ValueError(f"SimDisk: descriptor {file} does not come from the os.open seam")
+            path, flags = self.fake_fds[file]
+        else:
+            path = os.fspath(file)
+            if not isinstance(path, str):
+                path = os.fsdecode(path)
         self.yield_point("open")
         binary = "b" in mode
-        kind = mode.replace("b", "").replace("t", "")
+        kind = mode.replace("b", "").replace("t", "").replace("+", "")
+        if opener is not None and flags is None:
+            # open(name, mode, opener=f): f(name, flags) decides how the file is really opened
+            want = {"r": os.O_RDONLY, "w": os.O_WRONLY | os.O_CREAT | os.O_TRUNC, "a": os.O_WRONLY | os.O_CREAT | os.O_APPEND,
+                    "x": os.O_WRONLY | os.O_CREAT | os.O_EXCL}[kind] | getattr(os, "O_CLOEXEC", 0)
+            fd = opener(path, want)
+            if fd not in self.fake_fds:
+                raise ValueError("SimDisk: the opener did not go through the os.open seam")
+            path, flags = self.fake_fds[fd]
         if kind in ("w", "a", "x"):
-            if kind == "x" and path in self.files:
+            if not self.parent_exists(path):
+                self.log("open_w_nodir", path)
+                raise FileNotFoundError(2, "No such file or directory", path)
+            if self.dir_exists(path) and path not in self.files:
+                self.log("open_w_isdir", path)
+                raise IsADirectoryError(21, "Is a directory", path)
+            excl = kind == "x" if flags is None else bool(flags & os.O_EXCL)
+            trunc = kind in ("w", "x") if flags is None else bool(flags & os.O_TRUNC)
+            append = kind == "a" if flags is None else bool(flags & os.O_APPEND)
+            if excl and path in self.files:
                 self.log("open_x_exists", path)
                 raise FileExistsError(17, "File exists", path)
             hid = len(self.handles)
             self.log("open_w", path, hid=hid, mode=mode)
-            if kind != "a" or path not in self.files:
+            rp_ = self.resolve(path)
+            self.versions[rp_] = self.versions.get(rp_, 0) + 1
+            if trunc or path not in self.files:
                 self.files[path] = bytearray()  # O_TRUNC / O_CREAT at open time, like the real call
             raw = SimRawW(self, path, hid)
-            raw.pos = len(self.files[path])
+            raw.pos = len(self.files[path]) if (append or trunc) else 0  # (without O_TRUNC and O_APPEND: overwrite from the start)
             self.handles.append(raw)
             if binary and buffering == 0:
                 return raw  # unbuffered binary: the caller talks to write(2) directly
@@ -441,15 +572,36 @@ class Installed:
         warnings.catch_warnings.__enter__, warnings.catch_warnings.__exit__ = self._cw
         warnings._showwarnmsg = self._showmsg
 
-    # iodata itself never deletes, renames or probes files, but a change to it might ("clean up the
-    # incomplete output"): route those calls to the simulated disk for simulated paths.
+    # iodata itself never deletes, renames or probes files, creates directories, opens descriptors or expands
+    # wildcards, but a change to it might ("clean up the incomplete output", "create the output directory", "atomic
+    # replace"): every such call on a simulated path goes to the simulated file system and is a pre-emption point.
     def _install_os(self):
+        import builtins
+        import glob
+        import stat as stat_mod
+        import tokenize
+
         disk = self.disk
         real = {"remove": os.remove, "unlink": os.unlink, "rename": os.rename, "replace": os.replace,
-                "exists": os.path.exists, "isfile": os.path.isfile, "getsize": os.path.getsize}
+                "exists": os.path.exists, "isfile": os.path.isfile, "getsize": os.path.getsize,
+                "isdir": os.path.isdir, "makedirs": os.makedirs, "mkdir": os.mkdir, "getcwd": os.getcwd,
+                "os_open": os.open, "stat": os.stat, "lstat": os.lstat, "islink": os.path.islink, "lexists": os.path.lexists,
+                "open": builtins.open, "io_open": io.open, "tok_open": tokenize._builtin_open,
+                "glob": glob.glob, "iglob": glob.iglob, "listdir": os.listdir, "chdir": os.chdir}
         self._os_real = real
+        disk.real_open = real["open"]
+
+        def real_lexists(p):
+            # (posixpath.lexists calls os.lstat, which is replaced below)
+            try:
+                real["lstat"](p)
+            except (OSError, ValueError):
+                return False
+            return True
 
         def simulated(path):
+            if isinstance(path, int):
+                return path if path in disk.fake_fds else None
             try:
                 p = os.fspath(path)
             except TypeError:
@@ -460,18 +612,22 @@ class Installed:
                 return p
             # paths that do not exist for real belong to the simulation as well (relative ones, and absolute
             # ones below the working directory, e.g. the result of os.path.abspath on a simulated name)
-            if not real["exists"](p) and (not os.path.isabs(p) or p.startswith(disk.cwd.rstrip("/") + "/")):
+            if not real_lexists(p) and (not os.path.isabs(p) or p.startswith(disk.cwd.rstrip("/") + "/")):
                 return p
             return None
+
+        def point(what):
+            disk.yield_point("fs:" + what)
 
         def remove(path, *a, **kw):
             p = simulated(path)
             if p is None:
                 return real["remove"](path, *a, **kw)
             disk.log("unlink", p)
-            if p not in disk.files:
-                raise FileNotFoundError(2, "No such file or directory", p)
-            del disk.files[p]
+            try:
+                disk.unlink(p)
+            finally:
+                point("unlink")
             return None
 
         def rename(src, dst, *a, **kw):
@@ -480,35 +636,225 @@ class Installed:
                 return real["rename"](src, dst, *a, **kw)
             q = os.fspath(dst)
             disk.log("rename", p, to=q)
-            if p not in disk.files:
-                raise FileNotFoundError(2, "No such file or directory", p)
-            disk.files[q] = disk.files.pop(p)
+            disk.log("renamed_over", q)
+            try:
+                disk.rename(p, q)
+            finally:
+                point("rename")
             return None
 
         def exists(path):
             p = simulated(path)
             if p is None:
-                return real["exists"](path)
-            return p in disk.files
+                try:
+                    real["stat"](path)
+                except (OSError, ValueError):
+                    return False
+                return True
+            r = p in disk.files or disk.dir_exists(p)
+            point("exists")
+            return r
+
+        def isfile(path):
+            p = simulated(path)
+            if p is None:
+                import stat as _st
+                try:
+                    return _st.S_ISREG(real["stat"](path).st_mode)
+                except (OSError, ValueError):
+                    return False
+            r = p in disk.files
+            point("isfile")
+            return r
+
+        def isdir(path):
+            p = simulated(path)
+            if p is None:
+                import stat as _st
+                try:
+                    return _st.S_ISDIR(real["stat"](path).st_mode)
+                except (OSError, ValueError):
+                    return False
+            r = disk.dir_exists(p)
+            point("isdir")
+            return r
+
+        def islink(path):
+            p = simulated(path)
+            if p is None:
+                import stat as _st
+                try:
+                    return _st.S_ISLNK(real["lstat"](path).st_mode)
+                except (OSError, ValueError, AttributeError):
+                    return False
+            return disk.resolve(p, follow_last=False) in disk.symlinks
+
+        def lexists(path):
+            p = simulated(path)
+            if p is None:
+                return real_lexists(path)
+            return disk.resolve(p, follow_last=False) in disk.symlinks or p in disk.files or disk.dir_exists(p)
 
         def getsize(path):
             p = simulated(path)
             if p is None or p not in disk.files:
-                return real["getsize"](path)
+                return real["stat"](path).st_size
             return len(disk.files[p])
+
+        def makedirs(name, mode=0o777, exist_ok=False):
+            p = simulated(name)
+            if p is None:
+                return real["makedirs"](name, mode, exist_ok)
+            try:
+                disk.makedirs(p, exist_ok=exist_ok)
+            finally:
+                point("makedirs")
+            return None
+
+        def mkdir(path, mode=0o777, **kw):
+            p = simulated(path)
+            if p is None:
+                return real["mkdir"](path, mode, **kw)
+            try:
+                disk.mkdir(p)
+            finally:
+                point("mkdir")
+            return None
+
+        def getcwd():
+            if disk.cwd_gone:
+                raise FileNotFoundError(2, "No such file or directory")
+            return disk.cwd
+
+        def chdir(path):
+            p = simulated(path)
+            if p is None:
+                return real["chdir"](path)
+            if not disk.dir_exists(p):
+                raise FileNotFoundError(2, "No such file or directory", os.fspath(path))
+            disk.cwd = disk.resolve(p)
+            return None
+
+        def os_open(path, flags, mode=0o777, **kw):
+            p = simulated(path)
+            if p is None:
+                return real["os_open"](path, flags, mode, **kw)
+            fd = 10_000_000 + len(disk.fake_fds)
+            disk.fake_fds[fd] = (p, flags)
+            disk.log("os_open", p, flags=flags)
+            return fd
+
+        def _stat(path, follow):
+            p = simulated(path)
+            if p is None:
+                return None
+            rp = disk.resolve(p, follow_last=follow)
+            ver = disk.versions.get(rp, 0)
+            if not follow and rp in disk.symlinks:
+                return os.stat_result((stat_mod.S_IFLNK | 0o777, 1, 1, 1, 0, 0, len(disk.symlinks[rp]), ver, ver, ver))
+            if dict.__contains__(disk.files, rp):
+                return os.stat_result((stat_mod.S_IFREG | 0o644, 2, 1, 1, 0, 0, len(dict.__getitem__(disk.files, rp)), ver, ver, ver))
+            if disk.dir_exists(rp):
+                return os.stat_result((stat_mod.S_IFDIR | 0o755, 3, 1, 2, 0, 0, 4096, 0, 0, 0))
+            raise FileNotFoundError(2, "No such file or directory", os.fspath(path))
+
+        def stat(path, *a, **kw):
+            if a or kw.get("dir_fd") is not None:
+                return real["stat"](path, *a, **kw)
+            r = _stat(path, kw.get("follow_symlinks", True))
+            return real["stat"](path, **kw) if r is None else r
+
+        def lstat(path, *a, **kw):
+            if a or kw:
+                return real["lstat"](path, *a, **kw)
+            r = _stat(path, False)
+            return real["lstat"](path) if r is None else r
+
+        def any_open(file, mode="r", *a, **kw):
+            if simulated(file) is None:
+                return real["open"](file, mode, *a, **kw)
+            return disk.open(file, mode, *a, **kw)
+
+        def listdir(path="."):
+            try:
+                p = os.fspath(path)
+            except TypeError:
+                return real["listdir"](path)
+            if isinstance(p, bytes) or (os.path.isabs(p) and not (p + "/").startswith(disk.cwd.rstrip("/") + "/")):
+                return real["listdir"](path)
+            # a directory of the simulated namespace: what the simulation put there, plus what is there for real
+            pre = disk.resolve(p).rstrip("/") + "/"
+            names = set()
+            for k in list(dict.keys(disk.files)) + list(disk.symlinks) + list(disk.made_dirs):
+                if k.startswith(pre):
+                    names.add(k[len(pre):].split("/")[0])
+            try:
+                names.update(real["listdir"](path))
+            except OSError:
+                if not names and not disk.dir_exists(p):
+                    raise
+            return sorted(names)
+
+        def sim_glob(pathname, *a, **kw):
+            import fnmatch
+
+            pat = os.fspath(pathname)
+            if kw.get("root_dir") is not None or kw.get("recursive") or isinstance(pat, bytes):
+                return real["glob"](pathname, *a, **kw)
+            dirname, base = os.path.split(pat)
+            if glob.has_magic(dirname) or os.path.isabs(pat) and not pat.startswith(disk.cwd.rstrip("/") + "/"):
+                return real["glob"](pathname, *a, **kw)
+            if not glob.has_magic(base):
+                return [pat] if lexists(pat) else []
+            try:
+                names = listdir(dirname or ".")
+            except OSError:
+                return []
+            if not base.startswith("."):
+                names = [n for n in names if not n.startswith(".")]
+            point("glob")
+            return [os.path.join(dirname, n) for n in fnmatch.filter(names, base)]
+
+        def sim_iglob(pathname, *a, **kw):
+            return iter(sim_glob(pathname, *a, **kw))
 
         os.remove = remove
         os.unlink = remove
         os.rename = rename
         os.replace = rename
         os.path.exists = exists
-        os.path.isfile = exists
+        os.path.isfile = isfile
+        os.path.isdir = isdir
+        os.path.islink = islink
+        os.path.lexists = lexists
         os.path.getsize = getsize
+        os.makedirs = makedirs
+        os.mkdir = mkdir
+        os.getcwd = getcwd
+        os.chdir = chdir
+        os.open = os_open
+        os.stat = stat
+        os.lstat = lstat
+        os.listdir = listdir
+        builtins.open = any_open
+        io.open = any_open
+        tokenize._builtin_open = any_open
+        glob.glob = sim_glob
+        glob.iglob = sim_iglob
 
     def _uninstall_os(self):
+        import builtins
+        import glob
+        import tokenize
+
         r = self._os_real
         os.remove, os.unlink, os.rename, os.replace = r["remove"], r["unlink"], r["rename"], r["replace"]
         os.path.exists, os.path.isfile, os.path.getsize = r["exists"], r["isfile"], r["getsize"]
+        os.path.isdir, os.path.islink, os.path.lexists = r["isdir"], r["islink"], r["lexists"]
+        os.makedirs, os.mkdir, os.getcwd, os.chdir, os.open = r["makedirs"], r["mkdir"], r["getcwd"], r["chdir"], r["os_open"]
+        os.stat, os.lstat, os.listdir = r["stat"], r["lstat"], r["listdir"]
+        builtins.open, io.open, tokenize._builtin_open = r["open"], r["io_open"], r["tok_open"]
+        glob.glob, glob.iglob = r["glob"], r["iglob"]
 
     def __exit__(self, *exc):
         self._uninstall_os()
